@@ -6,7 +6,7 @@ require (
 	github.com/anishathalye/porcupine v1.3.0
 	github.com/golang/protobuf v1.5.0
 	github.com/google/go-cmp v0.7.0
-	google.golang.org/protobuf v0.0.0
+	google.golang.org/protobuf v1.26.0-rc.1
 )
 
 replace google.golang.org/protobuf => /repo
